@@ -109,7 +109,7 @@ Section Equiv.
     intros Hag inl hs; induction hs as [|[[m name] hb] hs IH]; intros st Hh; unfold py_handle in *;
       cbn [ps_handlers py_find_handler forallb] in *; [reflexivity|].
     apply andb_prop in Hh as [Hb Hh]. cbn [snd] in Hb.
-    destruct (h_matches h m e).
+    destruct (h_matches h (s_h st) m e).
     - pose proof (block_agree ep ey Hag inl hb (bind name e st) Hb) as E.
       destruct (ps_block ep hb (bind name e st)) as [st2 r]; destruct (py_block ey hb (bind name e st)) as [st2' o].
       rewrite cv_pair in E. inversion E; subst st2' o; clear E.
@@ -125,7 +125,7 @@ Section Equiv.
     intros Hs hs; induction hs as [|[[m name] hb] hs IH]; intros st Hh; unfold py_handle in *;
       cbn [py_find_handler forallb] in *; [reflexivity|].
     apply andb_prop in Hh as [Hb Hh]. cbn [snd] in Hb.
-    destruct (h_matches h m e).
+    destruct (h_matches h (s_h st) m e).
     - pose proof (block_safe ey Hs hb (bind name e st) Hb) as E.
       destruct (py_block ey hb (bind name e st)) as [st2 o]. destruct o; cbn [snd is_jump] in *; congruence.
     - apply IH; assumption.
@@ -265,6 +265,48 @@ Section Equiv.
     destruct (py_call_result o); reflexivity.
   Qed.
 
+  Lemma xcall_agree ep ey k info : agree ep ey -> safe ey ->
+    forall x st, forallb (supp false) x = true -> ps_xcall ep k info x st = py_xcall ey k info x st.
+  Proof.
+    intros Hag Hsf x st Hx. unfold ps_xcall, py_xcall.
+    rewrite (func_block_agree ep ey Hag Hsf) by assumption.
+    destruct (py_block ey x (set_env [] (emit (EvExit k info) st))) as [st1 o]. cbn [fst snd].
+    destruct (py_call_result o); reflexivity.
+  Qed.
+
+  Lemma withS_agree (rp : option exc -> stmt -> state -> state * pres) (ry : option exc -> stmt -> state -> state * outcome) :
+    (forall cur, agree (rp cur) (ry cur)) -> (forall cur, safe (ry cur)) ->
+    forall inl cur k x b st, supp inl (SWithS k x b) = true ->
+      cv (ps_withS h no_dev rp cur k x b st) = py_withS ry cur k x b st.
+  Proof.
+    intros Hag Hsf inl cur k x b st Hs. cbn [supp] in Hs. apply andb_prop in Hs as [Hx Hb].
+    unfold ps_withS, py_withS.
+    pose proof (block_agree _ _ (Hag cur) inl b (emit (EvEnter k) st) Hb) as E.
+    destruct (ps_block (rp cur) b (emit (EvEnter k) st)) as [st3 r]; destruct (py_block (ry cur) b (emit (EvEnter k) st)) as [st3' o].
+    rewrite cv_pair in E. inversion E; subst st3' o; clear E.
+    destruct r as [v|e|]; [| |reflexivity].
+    - rewrite (xcall_agree _ _ k None (Hag cur) (Hsf cur)) by assumption.
+      destruct v; cbn [out_of out_of_val];
+        destruct (py_xcall (ry cur) k None x st3) as [st4 [v'|e'|]]; reflexivity.
+    - rewrite ps_caught_off. cbn [out_of].
+      rewrite (xcall_agree _ _ k (Some e) (Hag (Some e)) (Hsf (Some e))) by assumption.
+      destruct (py_xcall (ry (Some e)) k (Some e) x st3) as [st4 [v'|e'|]]; try reflexivity.
+      destruct (truthy v'); reflexivity.
+  Qed.
+
+  Lemma withS_safe (ry : option exc -> stmt -> state -> state * outcome) :
+    (forall cur, safe (ry cur)) ->
+    forall cur k x b st, forallb (supp false) b = true -> is_jump (snd (py_withS ry cur k x b st)) = false.
+  Proof.
+    intros Hsf cur k x b st Hb. unfold py_withS.
+    pose proof (block_safe _ (Hsf cur) b (emit (EvEnter k) st) Hb) as E.
+    destruct (py_block (ry cur) b (emit (EvEnter k) st)) as [st3 o]. cbn [snd] in E.
+    destruct o; try discriminate; try reflexivity;
+      match goal with |- context [py_xcall ?ev k ?i x st3] =>
+        destruct (py_xcall ev k i x st3) as [st4 [v'|e'|]]; try reflexivity end.
+    destruct (truthy v'); reflexivity.
+  Qed.
+
   Lemma call_safe ey k b (st : state) : is_jump (snd (py_call ey k b st)) = false.
   Proof.
     unfold py_call. destruct (py_block ey b (set_env [] st)) as [st1 o]. destruct (py_call_result o); reflexivity.
@@ -285,6 +327,7 @@ Section Equiv.
     - (* with *) cbn [supp] in Hs. apply with_safe; auto.
     - (* assert *) destruct (q_cond h k st) as [[|] st1]; [reflexivity|]. destruct (assert_fail h msg st1); reflexivity.
     - (* func *) apply call_safe.
+    - (* with, script-defined manager *) cbn [supp] in Hs. apply andb_prop in Hs as [Hx Hb]. apply withS_safe; auto.
   Qed.
 
   Lemma stmt_agree : forall f cur, agree (ps_stmt h no_dev f cur) (py_stmt h f cur).
@@ -301,6 +344,7 @@ Section Equiv.
     - (* with *) cbn [supp] in Hs. apply (with_agree _ _ (IH cur) inl); assumption.
     - (* assert *) destruct (q_cond h k st) as [[|] st1]; [reflexivity|]. destruct (assert_fail h msg st1); reflexivity.
     - (* func *) cbn [supp] in Hs. apply call_agree; [apply IH|apply py_stmt_safe|assumption].
+    - (* with, script-defined manager *) apply (withS_agree _ _ IH (py_stmt_safe f) inl); assumption.
   Qed.
 
   (* ---------------------------------------------------------------------------------------------- *)
@@ -385,13 +429,28 @@ Example py_assert_msg :
   ([EvC 1 true; EvT 1; EvC 3 false; EvMsg 4]%N, CExc (exc_of cls_AssertionError)).
 Proof. vm_compute. reflexivity. Qed.
 
+(* a return pending across a finally clause survives a function call (with its own return) made by that clause,
+   and across a script-defined __exit__ that returns *)
+Example py_pending_return :
+  py_exec (chost [] [] [] w_classes) 20
+          [SWithS 2 [SReturn (Some 0)] [STry [SReturn (Some 5)] [] [] [SFunc 1 [SReturn (Some 7)]]]]%N [] =
+  ([EvEnter 2; EvRet 1 (Some 7); EvExit 2 None]%N, CRet (Some 5)%N).
+Proof. vm_compute. reflexivity. Qed.
+(* the same try statement executed twice: HC1 is EA (7-1) the first time and EC (9-1) after sw(1) *)
+Example py_rebound_handler_class :
+  py_exec (chost [(1, [7; 9]); (2, [1; 1])]%N [] [] w_classes) 20
+          [SFor 2 [STry [SRaise 7 None] [(MVar [] 1, None, [STrace 1])] [] []; SSwitch 1] []]%N [(1, [7; 9]); (2, [1; 1])]%N =
+  ([EvIter 2; EvN 2 true; EvT 1; EvSw 1; EvN 2 true]%N, CExc (exc_of 7)).
+Proof. vm_compute. reflexivity. Qed.
+
 (* the hypotheses of flow_equiv are inhabited by a non-trivial skeleton: every construct, nested *)
 Definition ex_body : list stmt :=
   [STrace 1;
    SFor 1 [STry [SWith [1; 2] [SIf 2 [SBreak] [SContinue]]]
                 [(MCls [6; 8], Some 1, [SProbe 3 1; SReraise]); (MAny, None, [SReturn (Some 3)])]
                 [SWhile 4 [SAssert 5 None; SAssert 7 (Some 8)] [SBreak]]
-                [STrace 2; SFunc 6 [SRaise 7 (Some 8)]]]
+                [STrace 2; SFunc 6 [SRaise 7 (Some 8)]; SSwitch 9;
+                 SWithS 10 [SReraise; SReturn (Some 1)] [STry [SRaise 7 None] [(MVar [8] 9, None, [SContinue])] [] []]]]
           [SPass];
    SReturn None]%N.
 Example ex_supported : supported ex_body = true.
